@@ -23,7 +23,7 @@ type Mutated struct {
 var DefectClasses = []string{
 	"substitute", "transpose", "count-delete", "count-insert", "count-any", "foreign-word", "case",
 	"affix", "junk-token", "separator", "checksum-only", "last-word", "none", "lead-zero-wrongsum",
-	"empty-token", "drop-word-keep-separator",
+	"empty-token", "drop-word-keep-separator", "strip-marks", "add-mark",
 }
 
 func join(l ref.Lang, idx []int, sep string) string {
@@ -166,6 +166,42 @@ func Defect() *rapid.Generator[Mutated] {
 			p := rapid.IntRange(0, n-1).Draw(t, "pos")
 			words[p] = ""
 			m.Text, m.Desc = strings.Join(words, " "), fmt.Sprintf("word %d removed, separators kept", p)
+		case "strip-marks":
+			// accents / voicing marks dropped from one or all words ("abaco" for "a\u0301baco")
+			strip := func(w string) string {
+				var b strings.Builder
+				for _, r := range ref.NFKD(w) {
+					if !unicode.Is(unicode.M, r) {
+						b.WriteRune(r)
+					}
+				}
+				return b.String()
+			}
+			if rapid.Bool().Draw(t, "all") {
+				for i := range words {
+					words[i] = strip(words[i])
+				}
+				m.Desc = "combining marks stripped from every word"
+			} else {
+				// prefer a word that has marks
+				p := rapid.IntRange(0, n-1).Draw(t, "pos")
+				for k := 0; k < n; k++ {
+					if q := (p + k) % n; strip(words[q]) != words[q] {
+						p = q
+						break
+					}
+				}
+				words[p] = strip(words[p])
+				m.Desc = fmt.Sprintf("combining marks stripped from word %d", p)
+			}
+			m.Text = strings.Join(words, " ")
+		case "add-mark":
+			p := rapid.IntRange(0, n-1).Draw(t, "pos")
+			r := []rune(words[p])
+			at := rapid.IntRange(1, len(r)).Draw(t, "at")
+			mark := rapid.SampledFrom([]rune{0x0301, 0x0303, 0x0308, 0x3099, 0x309a, 0x0327}).Draw(t, "mark")
+			words[p] = string(r[:at]) + string(mark) + string(r[at:])
+			m.Text, m.Desc = strings.Join(words, " "), fmt.Sprintf("combining mark %U added to word %d", mark, p)
 		case "lead-zero-wrongsum":
 			// sentences whose entropy starts with zero bytes and whose checksum is the one of
 			// the entropy with its leading zero bytes dropped (what a big-integer
